@@ -353,10 +353,6 @@ func writtenRoots(n ast.Node) []*ast.Ident {
 		}
 	case *ast.IncDecStmt:
 		add(v.X)
-	case *ast.UnaryExpr:
-		if v.Op == token.AND {
-			add(v.X)
-		}
 	case *ast.RangeStmt:
 		if v.Tok == token.ASSIGN {
 			if v.Key != nil {
@@ -369,6 +365,20 @@ func writtenRoots(n ast.Node) []*ast.Ident {
 	case *ast.CallExpr:
 		if fn, ok := v.Fun.(*ast.Ident); ok && (fn.Name == "delete" || fn.Name == "copy") && len(v.Args) > 0 {
 			add(v.Args[0])
+		}
+		// an address handed to a function may be written through by it (conservatively a write) -
+		// except by sync/atomic, whose operations are synchronised and cannot race. An address that
+		// is merely taken (returned, stored) is a read: writes through it are not seen, which can
+		// only miss a race, never invent one.
+		if sel, ok := v.Fun.(*ast.SelectorExpr); ok {
+			if pkg, ok := sel.X.(*ast.Ident); ok && pkg.Name == "atomic" {
+				break
+			}
+		}
+		for _, a := range v.Args {
+			if u, ok := a.(*ast.UnaryExpr); ok && u.Op == token.AND {
+				add(u.X)
+			}
 		}
 		// a method call on (a field of) a variable may have a pointer receiver that
 		// mutates it. Receiver kinds are not known syntactically, so the method name
@@ -718,6 +728,21 @@ func writtenFieldsOf(n ast.Node, rn *ast.Ident, al map[string]string) []string {
 	case *ast.CallExpr:
 		if fn, ok := v.Fun.(*ast.Ident); ok && (fn.Name == "delete" || fn.Name == "copy") && len(v.Args) > 0 {
 			add(v.Args[0])
+		}
+		if sel, ok := v.Fun.(*ast.SelectorExpr); ok {
+			// a mutating method called on a field of the receiver (r.buf.Reset(), r.cache.Store(..)) writes it
+			if mutatorName(sel.Sel.Name) {
+				add(sel.X)
+			}
+			if pkg, ok := sel.X.(*ast.Ident); ok && pkg.Name == "atomic" {
+				break
+			}
+		}
+		// the address of a field handed to a function may be written through by it
+		for _, a := range v.Args {
+			if u, ok := a.(*ast.UnaryExpr); ok && u.Op == token.AND {
+				add(u.X)
+			}
 		}
 	}
 	return out
